@@ -17,7 +17,7 @@ META = {
         "model no quantity / amount / ratio field goes through a serialize_with (rounding) helper. R6: a field of a front-end structure (MCP explain) "
         "that is named like a report-model field is filled from that field. R7: presentation code lists tax_years / disposals / matches without a "
         "dropping iterator stage. Does not analyse the Typst template's own arithmetic "
-        "(no Typst analyser available) and does not compare rendered outputs."),
+        "(no Typst analyser available) and does not compare rendered outputs. R8: the text and the PDF formatter apply the same predicate to the holdings they list."),
     "trusted_base": ["rust_decimal: round_dp is MidpointNearestEven; round_dp_with_strategy honours the strategy",
                      "core::fmt template encoding", "the Typst template (report.typ) is outside the analysis"],
 }
